@@ -40,6 +40,13 @@ def judgeChaos (inp obs : Json) : Except String Verdict := do
              cover := cover0 ++ ["crashed"], nontrivial := true }
   let conns ← (← getArr obs "conns").mapM getConnLog
   let blocked ← getStrList obs "blocked"
+  if mode == "close-race" then
+    -- the same object closed by several goroutines at once, thousands of rounds: no panic (judged
+    -- above), every call returns
+    return { agree := true, spec := blocked.isEmpty,
+             why := if blocked.isEmpty then "" else s!"calls that did not return: {blocked.take 4}",
+             sig := if blocked.isEmpty then "" else "C11:close-race:blocked",
+             cover := cover0 ++ ["close-race"], nontrivial := true }
   if mode == "stuck-write" then
     -- Close racing Writes that are blocked on an undrained trunk: only "everything returns"
     let done := (← getStrList obs "final").any fun s => (s.splitOn " writes completed").length > 1
